@@ -66,6 +66,10 @@ FIXED = [
      'dense time_unit_transformer multiplied by U[default]/U[bound unit] (inverted): once[0,1000ms] looked 10^6 s back'),
     ('F09e', ['C08', 'C17'], 'fix: pastify() accepted future bounds that are not multiples',
      'pastify() turned eventually[1.4:3.4] (period 1 s) into once[0,2] and the monitor returned values instead of RTAMTException'),
+    ('F11a', ['C06'], 'fix: dense-time offline IA-STL monitors always returned -inf',
+     "dense offline IA-STL: 'sample == True' on a [t, bool] pair: insensitive predicates were always -inf"),
+    ('F11b', ['C06'], 'fix: dense-time online IA-STL dropped truth-value changes',
+     'dense online IA-STL: sat() compared a robustness with the previous Boolean; the sample where a predicate becomes true at robustness 0 was dropped'),
 ]
 
 OPEN = [
